@@ -221,6 +221,76 @@ pub assume_specification<T>[ Option::<T>::or ](a: Option<T>, b: Option<T>) -> (r
 pub enum Op { Put(Seq<u8>, Seq<u8>), Del(Seq<u8>) }
 #[derive(Debug)]
 pub struct DbError { pub x: u8 }
+// --- comparing write batches up to the order of operations on DIFFERENT key spaces.  The first byte of a key is its key space
+// (KeyPrefix: 0 TxHash, 32 CellLockScript, 64 CellTypeScript, 96 TxLockScript, 128 TxTypeScript, 160 BlockHash, 192 BlockNumber,
+// 224 Meta; anything else, and the empty key, form two more classes).  Operations on different key spaces touch different keys,
+// so they commute.  Two batches are equivalent when, for every class, their operations of that class are the same IN THE SAME
+// ORDER (so the sequence of operations on every single key is the same, which is all a RocksDB write batch depends on).
+pub open spec fn op_key(o: Op) -> Seq<u8> { match o { Op::Put(k, _) => k, Op::Del(k) => k } }
+pub open spec fn key_class(k: Seq<u8>) -> int {
+    if k.len() == 0 { -1 } else if k[0] == 0u8 { 0 } else if k[0] == 32u8 { 1 } else if k[0] == 64u8 { 2 } else if k[0] == 96u8 { 3 }
+    else if k[0] == 128u8 { 4 } else if k[0] == 160u8 { 5 } else if k[0] == 192u8 { 6 } else if k[0] == 224u8 { 7 } else { 8 }
+}
+pub open spec fn op_class(o: Op) -> int { key_class(op_key(o)) }
+pub open spec fn proj(ops: Seq<Op>, c: int) -> Seq<Op> decreases ops.len() {
+    if ops.len() == 0 { Seq::empty() }
+    else if op_class(ops.last()) == c { proj(ops.drop_last(), c).push(ops.last()) }
+    else { proj(ops.drop_last(), c) }
+}
+pub open spec fn pe(a: Seq<Op>, b: Seq<Op>, c: int) -> bool { proj(a, c) =~= proj(b, c) }
+pub open spec fn batch_equiv(a: Seq<Op>, b: Seq<Op>) -> bool {
+    pe(a, b, -1) && pe(a, b, 0) && pe(a, b, 1) && pe(a, b, 2) && pe(a, b, 3) && pe(a, b, 4) && pe(a, b, 5) && pe(a, b, 6) && pe(a, b, 7) && pe(a, b, 8)
+}
+pub broadcast proof fn lemma_proj_push(s: Seq<Op>, o: Op, c: int)
+    ensures #[trigger] proj(s.push(o), c) == (if op_class(o) == c { proj(s, c).push(o) } else { proj(s, c) })
+{
+    assert(s.push(o).drop_last() =~= s);
+    assert(s.push(o).last() == o);
+}
+pub proof fn lemma_proj_add(s: Seq<Op>, t: Seq<Op>, c: int)
+    ensures proj(s + t, c) == proj(s, c) + proj(t, c)
+    decreases t.len()
+{
+    if t.len() == 0 {
+        assert(s + t =~= s);
+        assert(proj(t, c) =~= Seq::<Op>::empty());
+        assert(proj(s, c) + proj(t, c) =~= proj(s, c));
+    } else {
+        lemma_proj_add(s, t.drop_last(), c);
+        assert((s + t).drop_last() =~= s + t.drop_last());
+        assert((s + t).last() == t.last());
+        if op_class(t.last()) == c {
+            assert(proj(s, c) + proj(t.drop_last(), c).push(t.last()) =~= (proj(s, c) + proj(t.drop_last(), c)).push(t.last()));
+        }
+    }
+}
+pub broadcast proof fn lemma_proj_empty(c: int)
+    ensures #[trigger] proj(Seq::<Op>::empty(), c) == Seq::<Op>::empty()
+{}
+pub broadcast group group_proj { lemma_proj_push, lemma_proj_empty }
+pub open spec fn pa(s: Seq<Op>, t: Seq<Op>, c: int) -> bool { proj(s + t, c) == proj(s, c) + proj(t, c) }
+pub proof fn lemma_proj_add_all(s: Seq<Op>, t: Seq<Op>)
+    ensures pa(s, t, -1), pa(s, t, 0), pa(s, t, 1), pa(s, t, 2), pa(s, t, 3), pa(s, t, 4), pa(s, t, 5), pa(s, t, 6), pa(s, t, 7), pa(s, t, 8)
+{
+    lemma_proj_add(s, t, -1); lemma_proj_add(s, t, 0); lemma_proj_add(s, t, 1); lemma_proj_add(s, t, 2); lemma_proj_add(s, t, 3);
+    lemma_proj_add(s, t, 4); lemma_proj_add(s, t, 5); lemma_proj_add(s, t, 6); lemma_proj_add(s, t, 7); lemma_proj_add(s, t, 8);
+}
+// appending equivalent pieces to equivalent batches
+pub proof fn lemma_equiv_add(a: Seq<Op>, b: Seq<Op>, d: Seq<Op>, e: Seq<Op>)
+    requires batch_equiv(a, b), batch_equiv(d, e)
+    ensures batch_equiv(a + d, b + e)
+{
+    lemma_proj_add(a, d, -1); lemma_proj_add(b, e, -1);
+    lemma_proj_add(a, d, 0); lemma_proj_add(b, e, 0);
+    lemma_proj_add(a, d, 1); lemma_proj_add(b, e, 1);
+    lemma_proj_add(a, d, 2); lemma_proj_add(b, e, 2);
+    lemma_proj_add(a, d, 3); lemma_proj_add(b, e, 3);
+    lemma_proj_add(a, d, 4); lemma_proj_add(b, e, 4);
+    lemma_proj_add(a, d, 5); lemma_proj_add(b, e, 5);
+    lemma_proj_add(a, d, 6); lemma_proj_add(b, e, 6);
+    lemma_proj_add(a, d, 7); lemma_proj_add(b, e, 7);
+    lemma_proj_add(a, d, 8); lemma_proj_add(b, e, 8);
+}
 pub trait VfBytes { spec fn s_b(&self) -> Seq<u8>; }
 impl VfBytes for Vec<u8> { open spec fn s_b(&self) -> Seq<u8> { self@ } }
 impl<const N: usize> VfBytes for [u8; N] { open spec fn s_b(&self) -> Seq<u8> { self@ } }
